@@ -12,16 +12,16 @@ Proof.
 Qed.
 Lemma fkey_eqb_spec a b : fkey_eqb a b = true <-> a = b.
 Proof.
-  destruct a as [n v f l c [s1 s2]], b as [n' v' f' l' c' [s1' s2']]. unfold fkey_eqb. cbn.
-  rewrite !andb_true_iff, !Nat.eqb_eq, onat_eqb_spec, !oN_eqb_spec.
+  destruct a as [n v f l c [s1 s2] fl], b as [n' v' f' l' c' [s1' s2'] fl']. unfold fkey_eqb. cbn.
+  rewrite !andb_true_iff, !Nat.eqb_eq, onat_eqb_spec, !oN_eqb_spec, N.eqb_eq.
   split.
-  - intros [[[[[[-> Hv] ->] ->] ->] ->] ->]. destruct v as [x|], v' as [y|]; try discriminate; [apply natinfo_eqb_spec in Hv; subst|]; reflexivity.
+  - intros [[[[[[[-> Hv] ->] ->] ->] ->] ->] ->]. destruct v as [x|], v' as [y|]; try discriminate; [apply natinfo_eqb_spec in Hv; subst|]; reflexivity.
   - intros H. inversion H; subst. repeat split. destruct v' as [y|]; [apply natinfo_eqb_spec|]; reflexivity.
 Qed.
 Lemma funckey_eqb_spec a b : funckey_eqb a b = true <-> a = b.
 Proof.
-  destruct a, b. unfold funckey_eqb. cbn. rewrite !andb_true_iff, Nat.eqb_eq, !onat_eqb_spec.
-  split; [intros [[-> ->] ->]; reflexivity | intros H; inversion H; auto].
+  destruct a, b. unfold funckey_eqb. cbn. rewrite !andb_true_iff, Nat.eqb_eq, !onat_eqb_spec, N.eqb_eq.
+  split; [intros [[[-> ->] ->] ->]; reflexivity | intros H; inversion H; auto].
 Qed.
 Lemma ns_key_eqb_spec a b : ns_key_eqb a b = true <-> a = b.
 Proof. destruct a, b. unfold ns_key_eqb. cbn [fst snd]. rewrite andb_true_iff, Nat.eqb_eq, N.eqb_eq. split; [intros [-> ->]; reflexivity | intros H; inversion H; auto]. Qed.
@@ -144,7 +144,7 @@ Lemma frame_for_wf n t k libname : tt_wf n t -> fk_name k < length (tt_strings t
 Proof.
   intros W Hk Hf Hl Hns. unfold frame_for. destruct (index_of fkey_eqb k (tt_frames t)) as [i|] eqn:E.
   - cbn [fst snd]. split; [exact W | eapply index_of_lt; [apply fkey_eqb_spec | exact E]].
-  - set (fu := mkFu (fk_name k) (fk_file k) (option_map ni_lib (fk_native k))).
+  - set (fu := mkFu (fk_name k) (fk_file k) (option_map ni_lib (fk_native k)) (fk_flags k)).
     destruct (func_for t fu libname) as [f t1] eqn:E1.
     assert (Hl' : forall l, fu_lib fu = Some l -> l < n).
     { intros l H. cbn in H. destruct (fk_native k) as [ni|] eqn:Ek; cbn in H; [inversion H; subst; apply Hl; reflexivity | discriminate]. }
@@ -208,7 +208,7 @@ Proof.
   - cbn. refine (conj W (conj _ (conj (grows_refl t) (conj eq_refl eq_refl)))). discriminate.
 Qed.
 
-Lemma do_req_wf n t r sc : tt_wf n t -> req_ok n r -> tt_wf n (do_req t r sc).
+Lemma do_req_wf n t r sc fl : tt_wf n t -> req_ok n r -> tt_wf n (do_req t r sc fl).
 Proof.
   intros W Hr.
   destruct r as [s | name | name file line col | lib rel hexname libname | lib rel symaddr symname libname | lib symaddr symname
@@ -252,7 +252,7 @@ Qed.
 
 Theorem run_reqs_wf n rs : Forall (fun r => req_ok n (fst r)) rs -> tt_wf n (run_reqs rs).
 Proof.
-  intros H. unfold run_reqs. assert (G : forall t, tt_wf n t -> tt_wf n (fold_left (fun t r => do_req t (fst r) (snd r)) rs t)).
+  intros H. unfold run_reqs. assert (G : forall t, tt_wf n t -> tt_wf n (fold_left (fun t r => do_req t (fst r) (fst (snd r)) (snd (snd r))) rs t)).
   { induction H as [|r rs Hr _ IH]; intros t W; cbn [fold_left]; [exact W | apply IH; apply do_req_wf; assumption]. }
   apply G. apply tt_empty_wf.
 Qed.
@@ -287,13 +287,13 @@ Lemma frame_for_subs t k libname (P : nat * nat -> Prop) : (forall x, In x (tt_f
   forall x, In x (tt_frames (snd (frame_for t k libname))) -> P (fk_sub x).
 Proof.
   intros H Hk x. unfold frame_for. destruct (index_of fkey_eqb k (tt_frames t)) as [i|] eqn:E; cbn [snd]; [apply H|].
-  destruct (func_for t (mkFu (fk_name k) (fk_file k) (option_map ni_lib (fk_native k))) libname) as [f t1] eqn:E1.
+  destruct (func_for t (mkFu (fk_name k) (fk_file k) (option_map ni_lib (fk_native k)) (fk_flags k)) libname) as [f t1] eqn:E1.
   cbn [snd tt_frames]. intros Hin. apply in_app_or in Hin. destruct Hin as [Hin|[<-|[]]]; [|exact Hk].
   apply H. replace (tt_frames t) with (tt_frames t1); [exact Hin|].
-  pose proof (func_for_frames t (mkFu (fk_name k) (fk_file k) (option_map ni_lib (fk_native k))) libname) as Hf. rewrite E1 in Hf. exact Hf.
+  pose proof (func_for_frames t (mkFu (fk_name k) (fk_file k) (option_map ni_lib (fk_native k)) (fk_flags k)) libname) as Hf. rewrite E1 in Hf. exact Hf.
 Qed.
 
-Lemma do_req_subs t r sc (P : nat * nat -> Prop) : (forall x, In x (tt_frames t) -> P (fk_sub x)) -> P sc -> forall x, In x (tt_frames (do_req t r sc)) -> P (fk_sub x).
+Lemma do_req_subs t r sc fl (P : nat * nat -> Prop) : (forall x, In x (tt_frames t) -> P (fk_sub x)) -> P sc -> forall x, In x (tt_frames (do_req t r sc fl)) -> P (fk_sub x).
 Proof.
   intros H Hsc.
   destruct r as [s | name | name file line col | lib rel hexname libname | lib rel symaddr symname libname | lib symaddr symname
@@ -326,12 +326,12 @@ Proof.
 Qed.
 
 (* ... for ANY request sequence: every row's (category, subcategory) is the handle some call was given *)
-Theorem run_reqs_subs rs : forall x, In x (tt_frames (run_reqs rs)) -> In (fk_sub x) (map snd rs).
+Theorem run_reqs_subs rs : forall x, In x (tt_frames (run_reqs rs)) -> In (fk_sub x) (map (fun r => fst (snd r)) rs).
 Proof.
   unfold run_reqs.
-  assert (G : forall (rs : list (freq * (nat * nat))) t (P : nat * nat -> Prop), (forall x, In x (tt_frames t) -> P (fk_sub x)) -> (forall r, In r rs -> P (snd r)) ->
-              forall x, In x (tt_frames (fold_left (fun t r => do_req t (fst r) (snd r)) rs t)) -> P (fk_sub x)).
+  assert (G : forall (rs : list (freq * (nat * nat * N))) t (P : nat * nat -> Prop), (forall x, In x (tt_frames t) -> P (fk_sub x)) -> (forall r, In r rs -> P (fst (snd r))) ->
+              forall x, In x (tt_frames (fold_left (fun t r => do_req t (fst r) (fst (snd r)) (snd (snd r))) rs t)) -> P (fk_sub x)).
   { clear rs. induction rs as [|r rs IH]; intros t P H Hr; cbn [fold_left]; [exact H|].
     apply IH; [|intros r' Hin; apply Hr; right; exact Hin]. apply do_req_subs; [exact H|apply Hr; left; reflexivity]. }
-  apply (G rs tt_empty (fun h => In h (map snd rs))); [intros x []|]. intros r Hin. apply in_map. exact Hin.
+  apply (G rs tt_empty (fun h => In h (map (fun r => fst (snd r)) rs))); [intros x []|]. intros r Hin. apply (in_map (fun r => fst (snd r))). exact Hin.
 Qed.
